@@ -23,12 +23,19 @@ def materialise(pkidir, certgen):
     p = subprocess.run([certgen, pkidir], input="\n".join(L) + "\n", capture_output=True, text=True)
     if p.returncode != 0:
         raise SystemExit("INFRA: certgen failed: " + p.stderr[-2000:])
+    # chain files for the handshake steps (leaf first)
+    for ch in CHAINS:
+        open(os.path.join(pkidir, "chain_" + "_".join(ch) + ".pem"), "w").write("".join(open(os.path.join(pkidir, c + ".pem")).read() for c in ch))
+
+KEYOF = {c[0]: c[3] for c in CERTS}
 
 def directed():
     """histories written down on purpose: the revocation is honoured, survives an impostor chain, an unauthenticated forged
     CRL is not 'authenticated' by the impostor, a CRL of an intermediate is authenticated through the presented parent"""
     return [
         [("crl", "r1", "root"), ("val", ["leafA"]), ("val", ["leafB"]), ("val", ["fleaf", "fakeroot"]), ("val", ["leafA", "fakeroot"]), ("val", ["leafA"]), ("val", ["leafA", "root"])],
+        [("hs", ["leafA"], "T12"), ("crl", "r1", "root"), ("hs", ["leafA"], "T12"), ("hs", ["leafA"], "T13"), ("hs", ["leafB"], "T13"), ("hs", ["fleaf", "fakeroot"], "T12"), ("hs", ["leafA", "root"], "T13")],
+        [("crl", "i1", "none"), ("hs", ["leafC", "inter"], "T13"), ("hs", ["leafC", "inter", "root"], "T12"), ("crl", "r13", "root"), ("hs", ["leafC", "inter"], "T12")],
         [("crl", "f2", "none"), ("val", ["leafB"]), ("val", ["fleaf", "fakeroot"]), ("val", ["leafB", "fakeroot"]), ("val", ["leafB"]), ("val", ["leafB", "root"])],
         [("crl", "i1", "root"), ("val", ["leafC", "inter"]), ("val", ["leafC", "inter", "root"]), ("crl", "r13", "root"), ("val", ["leafC", "inter"]), ("val", ["inter"])],
         [("crl", "rx", "root"), ("val", ["leafA"]), ("crl", "r1", "root"), ("val", ["leafA"]), ("crl", "r0", "root"), ("val", ["leafA"]), ("crl", "r1", "none"), ("val", ["leafA"]), ("val", ["leafA", "root"]), ("val", ["leafA"])],
@@ -42,8 +49,12 @@ def histories(tier, seed):
     for _ in range(n):
         h = []
         for _ in range(rnd.randrange(4, 11)):
-            if rnd.random() < 0.35:
+            x = rnd.random()
+            if x < 0.35:
                 h.append(("crl", rnd.choice(CRLS)[0], rnd.choice(["root", "root", "none"])))
+            elif x < 0.5:
+                # the same chain presented by a TLS server to a client that trusts the anchor: the handshake consults the same cache
+                h.append(("hs", rnd.choice(CHAINS), rnd.choice(["T12", "T13"])))
             else:
                 h.append(("val", rnd.choice(CHAINS)))
         H.append(h)
@@ -55,6 +66,14 @@ def render(h, pkidir, tag):
         if step[0] == "crl":
             L.append("crl file=%s%s" % (os.path.join(pkidir, step[1] + ".crl"), "" if step[2] == "none" else " ca=" + os.path.join(pkidir, step[2] + ".pem")))
             meta.append(dict(crl=step[1], ca=step[2]))
+        elif step[0] == "hs":
+            ch = step[1]
+            # the server holds the leaf's key and presents the chain as given (swapcert: the loader itself would refuse an inconsistent one)
+            L += ["keys kh id=%s,%s swapcert=%s" % (os.path.join(pkidir, ch[0] + ".pem"), os.path.join(pkidir, KEYOF[ch[0]] + ".key.pem"), os.path.join(pkidir, "chain_" + "_".join(ch) + ".pem")),
+                  "keys kv ca=%s" % os.path.join(pkidir, "root.pem"),
+                  "new s0 server keys=kh ver=%s" % step[2], "new c0 client keys=kv ver=%s%s" % (step[2], "" if step[2] == "T13" else " suites=0xc02b,0xc02f"),
+                  "link c0 s0", "pump c0 s0 max=40", "state c0", "del c0", "del s0", "delkeys kh", "delkeys kv"]
+            meta.append(dict(chain=ch, hsver=step[2]))
         else:
             L.append("validate chain=%s ca=%s" % (",".join(os.path.join(pkidir, c + ".pem") for c in step[1]), os.path.join(pkidir, "root.pem")))
             meta.append(dict(chain=step[1]))
